@@ -32,6 +32,16 @@ CLAIMED = {
             "Trusted: the interpreter with frames; call output variables are read only right after the call; runs in which a condition would read an unconstrained value are counted inconclusive, not passed.",
             "deterministic simulation: seeded call/return histories (early return, recursion, re-call) and injected command errors vs reference interpreter with frames",
             "DESIGN.md section 3 C05, Appendix D.2"),
+    "C11": ("exploration",
+            "Seeded operation histories over the variable and scope-stack commands, one run_instruction call per operation on harness-owned state; after every step the output class and the entire variable map are compared with a map plus a stack of maps. The faults are refused operations (pop of an empty stack must change nothing, --copy of undefined or repeated names, missing arguments) and the hash order of every map involved. Thin fault space, said plainly.",
+            "Trusted: the model table of DESIGN Appendix D.3; success output of push/pop unconstrained; a name undefined when copied on pop becomes unconstrained (as the property states).",
+            "deterministic simulation: seeded operation histories with refused operations vs map + stack-of-maps model, full state comparison after every step",
+            "DESIGN.md section 3 C11, Appendix D.3"),
+    "C15": ("exploration",
+            "Seeded histories against the public Commands API (stub commands over a small universe in which names collide with other commands' aliases) and against the script-level alias/unalias/remove_command/is_command_defined/function-definition commands; after every step the answer and both public tables are compared in full with a name table + alias table model and no alias may dangle. Faults: refused registrations and removals, hash order. Thin fault space, said plainly.",
+            "Trusted: the two-table model of Appendix D.5; two script-level corners the statement does not settle re-synchronise the model from the real tables (invariants still checked).",
+            "deterministic simulation: seeded registration/removal histories with refused operations vs two-table reference model, full table equality after every step",
+            "DESIGN.md section 3 C15, Appendix D.5"),
     "C13": ("fault_enumeration",
             "Per sampled program the halt flag is raised at EVERY depth-0 instruction boundary of the (300-step-bounded) unhalted run and at every applicable position inside the in-flight instruction (before the command body, after it, during its on_error handler, from a nested invocation); each halted execution must be the exact prefix of the unhalted one: same events, no further top-level instruction started, Ok result, variables as after the in-flight instruction. Exhaustive in the halt position per program, sampled over programs. A quarter of the runs instead raise the flag from a second thread under shuttle's seeded random / PCT scheduler (exploration).",
             "Trusted: the decorator's depth bookkeeping (depth 0 = runner's own instruction, handler invocation classified by following an Error end), shuttle's serialisation of the two threads, handle names normalised by order of first appearance when executions are compared. Stubbed: harness commands, OS scheduler (mode B).",
